@@ -159,17 +159,20 @@ func parserRequestHeader(c *Client, req *Request) error {
 		// noBody or rawBody do not require special handling here.
 	}
 
-	// Set User-Agent header.
-	req.RawRequest.Header.SetUserAgent(defaultUserAgent)
-	if c.userAgent != "" {
-		req.RawRequest.Header.SetUserAgent(c.userAgent)
-	}
-	if req.userAgent != "" {
+	// Set User-Agent header: the configured one; the default only if the headers have not named one either.
+	switch {
+	case req.userAgent != "":
 		req.RawRequest.Header.SetUserAgent(req.userAgent)
+	case c.userAgent != "":
+		req.RawRequest.Header.SetUserAgent(c.userAgent)
+	case len(req.RawRequest.Header.UserAgent()) == 0:
+		req.RawRequest.Header.SetUserAgent(defaultUserAgent)
 	}
 
-	// Set Referer header.
-	req.RawRequest.Header.SetReferer(c.referer)
+	// Set Referer header (without a configured one, a Referer among the headers stays).
+	if c.referer != "" {
+		req.RawRequest.Header.SetReferer(c.referer)
+	}
 	if req.referer != "" {
 		req.RawRequest.Header.SetReferer(req.referer)
 	}
